@@ -12,8 +12,9 @@ Line protocol for C04 (times are doubles, bit patterns).
      A  = `<name>:<nreal>:<nghost>:<methods>:<hooks>:<grow>` with methods/hooks
           `-` or `i`/`<k>` joined by `+`, grow `-` or `<m>~<n>` joined by `+`
           (the py hook of method m adds n real particles)
-  answers `compile-error` when the pasted body would not compile, else the
-  events separated by blanks:
+  answers the events separated by blanks (a call of a stage wrapper that does
+  not exist / of an evaluator that does not exist ends the run with
+  `x:AttributeError` / `x:IndexError` after the statements before it):
      `h:<name>:<m>:<t>:<dt>` `s:<name>:<m>:<i>:<t>:<dt>` `n` `e:<i>:<t>:<dt>` `d` `c:<t>:<dt>:<k>`
   `table`   answers `<class>=<owner>=<wire program>` for every Gen entry
   `steppers` answers `<class>=<methods>=<hooks>` for every Gen stepper entry
@@ -175,16 +176,37 @@ def handleRun (kv : List (String × String)) : Option String := do
   let stepsS ← lookup kv "steps"
   let steps ← if stepsS = "_" then some [] else (stepsS.splitOn ",").mapM parseStep?
   let cfg : Cfg := { arrays := arrs.map (·.cfg), hasCallback := cb, nEvals := nev }
-  if !(wellFormed cfg prog) then pure "compile-error" else
   let W := traceWorld (τ := Float) (growFn arrs)
   let s0 : TState Float := { events := [], sizes := arrs.map (fun a => (a.cfg.name, a.nreal, a.nghost)) }
   let A := Arith.float
-  let out ←
-    if mode = "impl" then
-      some (runR A W cfg prog steps ({ origT := 0.0, t := 0.0, dt := 0.0 }, s0)).2
-    else if mode = "lit" then some (literalRun A W cfg prog steps s0)
-    else none
-  pure (if out.events.isEmpty then "_" else " ".intercalate (out.events.map showEvent))
+  let showEvs (l : List (Event Float)) (tail : List String) : String :=
+    let all := l.map showEvent ++ tail
+    if all.isEmpty then "_" else " ".intercalate all
+  if wellFormed cfg prog then
+    let out ←
+      if mode = "impl" then
+        some (runR A W cfg prog steps ({ origT := 0.0, t := 0.0, dt := 0.0 }, s0)).2
+      else if mode = "lit" then some (literalRun A W cfg prog steps s0)
+      else none
+    pure (showEvs out.events [])
+  else
+    -- `self.stage7()` on a class without that wrapper is an attribute lookup at
+    -- run time: the statements before it have run when AttributeError is
+    -- raised; `acceleration_evals[index]` raises IndexError after the
+    -- neighbour refresh.  The first step aborts there, later steps never start.
+    match steps with
+    | [] => pure "_"
+    | (t, dt) :: _ =>
+      let pre := prog.takeWhile (cmdWellFormed cfg)
+      let out ←
+        if mode = "impl" then some (step A W cfg pre t dt s0)
+        else if mode = "lit" then some (literalStep A W cfg pre t dt s0)
+        else none
+      let tail := match (prog.dropWhile (cmdWellFormed cfg)).head? with
+        | some (.computeAccelerations _ true) => ["n", "x:IndexError"]
+        | some (.computeAccelerations _ false) => ["x:IndexError"]
+        | _ => ["x:AttributeError"]
+      pure (showEvs out.events tail)
 
 def handle (line : String) : String :=
   match tokens line with
